@@ -35,7 +35,7 @@ func (vc *VC) initMaps() {
 	vc.specUsed = map[string]bool{}
 }
 
-func (P *Prog) verifyFunction(fn *ssa.Function, spec *FuncSpec) *Unit {
+func (P *Prog) verifyFunction(fn *ssa.Function, spec *FuncSpec) (ru *Unit) {
 	key := P.fnKeys[fn]
 	name := key
 	if spec != nil && spec.Variant != "" {
@@ -44,6 +44,7 @@ func (P *Prog) verifyFunction(fn *ssa.Function, spec *FuncSpec) *Unit {
 	vc := newVC(P, name, pkgOf(fn))
 	vc.initMaps()
 	u := &Unit{Name: name, Kind: "func", Fn: fn, Spec: spec, VC: vc}
+	ru = u
 	if spec != nil {
 		u.Props = spec.Props
 		vc.unitProps = spec.Props
@@ -52,6 +53,7 @@ func (P *Prog) verifyFunction(fn *ssa.Function, spec *FuncSpec) *Unit {
 		if r := recover(); r != nil {
 			if se, ok := r.(specErr); ok {
 				vc.specErrors = append(vc.specErrors, name+": "+se.msg)
+				u.Errors = append(u.Errors, vc.specErrors...)
 				return
 			}
 			panic(r)
